@@ -20,6 +20,19 @@ use crate::formatting::{
 };
 use crate::registry::GenerationalAtomicStorage;
 
+/// Appends the suffix for `unit`, if any, to `name`, yielding the name of the metric family.
+///
+/// The exposition format requires every sample of a family to be named after the family (plus
+/// `_bucket`, `_sum` or `_count` where the type allows), so the unit suffix has to be part of the
+/// family name used for the `HELP` and `TYPE` lines as well, and has to come before those suffixes.
+fn family_name(name: &str, unit: Option<Unit>) -> String {
+    match unit {
+        Some(Unit::Count) | None => name.to_owned(),
+        Some(Unit::Percent) => format!("{name}_ratio"),
+        Some(unit) => format!("{}_{}", name, unit.as_str()),
+    }
+}
+
 #[derive(Debug)]
 pub(crate) struct Inner {
     pub registry: Registry<Key, GenerationalAtomicStorage>,
@@ -122,10 +135,12 @@ impl Inner {
         let descriptions = self.descriptions.read().unwrap_or_else(PoisonError::into_inner);
 
         for (name, mut by_labels) in counters.drain() {
-            let unit = descriptions.get(name.as_str()).and_then(|(desc, unit)| {
+            let description = descriptions.get(name.as_str());
+            let unit = description.and_then(|(_, unit)| unit.filter(|_| self.enable_unit_suffix));
+            let name = family_name(name.as_str(), unit);
+            if let Some((desc, _)) = description {
                 write_help_line(&mut output, name.as_str(), desc);
-                *unit
-            });
+            }
 
             write_type_line(&mut output, name.as_str(), "counter");
             for (labels, value) in by_labels.drain() {
@@ -136,17 +151,19 @@ impl Inner {
                     &labels,
                     None,
                     value,
-                    unit.filter(|_| self.enable_unit_suffix),
+                    None,
                 );
             }
             output.push('\n');
         }
 
         for (name, mut by_labels) in gauges.drain() {
-            let unit = descriptions.get(name.as_str()).and_then(|(desc, unit)| {
+            let description = descriptions.get(name.as_str());
+            let unit = description.and_then(|(_, unit)| unit.filter(|_| self.enable_unit_suffix));
+            let name = family_name(name.as_str(), unit);
+            if let Some((desc, _)) = description {
                 write_help_line(&mut output, name.as_str(), desc);
-                *unit
-            });
+            }
 
             write_type_line(&mut output, name.as_str(), "gauge");
             for (labels, value) in by_labels.drain() {
@@ -157,19 +174,21 @@ impl Inner {
                     &labels,
                     None,
                     value,
-                    unit.filter(|_| self.enable_unit_suffix),
+                    None,
                 );
             }
             output.push('\n');
         }
 
         for (name, mut by_labels) in distributions.drain() {
-            let unit = descriptions.get(name.as_str()).and_then(|(desc, unit)| {
-                write_help_line(&mut output, name.as_str(), desc);
-                *unit
-            });
-
+            let description = descriptions.get(name.as_str());
+            let unit = description.and_then(|(_, unit)| unit.filter(|_| self.enable_unit_suffix));
             let distribution_type = self.distribution_builder.get_distribution_type(name.as_str());
+            let name = family_name(name.as_str(), unit);
+            if let Some((desc, _)) = description {
+                write_help_line(&mut output, name.as_str(), desc);
+            }
+
             write_type_line(&mut output, name.as_str(), distribution_type);
             for (labels, distribution) in by_labels.drain(..) {
                 let (sum, count) = match distribution {
@@ -184,7 +203,7 @@ impl Inner {
                                 &labels,
                                 Some(("quantile", quantile.value())),
                                 value,
-                                unit.filter(|_| self.enable_unit_suffix),
+                                None,
                             );
                         }
 
@@ -199,7 +218,7 @@ impl Inner {
                                 &labels,
                                 Some(("le", le)),
                                 count,
-                                unit.filter(|_| self.enable_unit_suffix),
+                                None,
                             );
                         }
                         write_metric_line(
@@ -209,7 +228,7 @@ impl Inner {
                             &labels,
                             Some(("le", "+Inf")),
                             histogram.count(),
-                            unit.filter(|_| self.enable_unit_suffix),
+                            None,
                         );
 
                         (histogram.sum(), histogram.count())
@@ -223,7 +242,7 @@ impl Inner {
                     &labels,
                     None,
                     sum,
-                    unit.filter(|_| self.enable_unit_suffix),
+                    None,
                 );
                 write_metric_line::<&str, u64>(
                     &mut output,
@@ -232,7 +251,7 @@ impl Inner {
                     &labels,
                     None,
                     count,
-                    unit.filter(|_| self.enable_unit_suffix),
+                    None,
                 );
             }
 
